@@ -7,6 +7,7 @@ use crate::diagnostics::*;
 use crate::grammar::attributes::Deprecated;
 use crate::grammar::*;
 use crate::utils::ptr_util::{OwnedPtr, WeakPtr};
+use std::collections::HashSet;
 
 pub unsafe fn patch_ast(compilation_state: &mut CompilationState) {
     let mut patcher = TypeRefPatcher {
@@ -29,7 +30,14 @@ pub unsafe fn patch_ast(compilation_state: &mut CompilationState) {
 /// nested types would never terminate, so this must be caught (and compilation stopped) right after patching.
 fn check_for_self_containing_type_aliases(ast: &Ast, diagnostics: &mut Diagnostics) {
     // Returns true if walking through the anonymous types nested in `type_ref` leads back to a type we're already in.
-    fn contains_itself(type_ref: &TypeRef, enclosing_types: &mut Vec<*const ()>) -> bool {
+    // Types that were already walked through without finding a way back are remembered in `loop_free_types` and not
+    // walked through again: aliases can share their nested types, and the number of paths through shared types
+    // doubles with every level (`typealias T1 = Result<T0, T0>`, `typealias T2 = Result<T1, T1>`, ...).
+    fn contains_itself(
+        type_ref: &TypeRef,
+        enclosing_types: &mut Vec<*const ()>,
+        loop_free_types: &mut HashSet<*const ()>,
+    ) -> bool {
         // If this reference couldn't be patched, an error was already reported for it, and there's nothing to check.
         if matches!(&type_ref.definition, TypeRefDefinition::Unpatched(_)) {
             return false;
@@ -52,17 +60,26 @@ fn check_for_self_containing_type_aliases(ast: &Ast, diagnostics: &mut Diagnosti
         if enclosing_types.contains(&address) {
             return true;
         }
+        if loop_free_types.contains(&address) {
+            return false;
+        }
         enclosing_types.push(address);
-        let result = nested_type_refs.into_iter().any(|nested| contains_itself(nested, enclosing_types));
+        let mut nested_type_refs = nested_type_refs.into_iter();
+        let result = nested_type_refs.any(|nested| contains_itself(nested, enclosing_types, loop_free_types));
         enclosing_types.pop();
+        if !result {
+            loop_free_types.insert(address);
+        }
         result
     }
+
+    let mut loop_free_types = HashSet::new();
 
     for node in ast.as_slice() {
         let Node::TypeAlias(type_alias_ptr) = node else { continue };
         let type_alias = type_alias_ptr.borrow();
 
-        if contains_itself(&type_alias.underlying, &mut Vec::new()) {
+        if contains_itself(&type_alias.underlying, &mut Vec::new(), &mut loop_free_types) {
             Diagnostic::new(Error::SelfReferentialTypeAliasNeedsConcreteType {
                 identifier: type_alias.module_scoped_identifier(),
             })
